@@ -184,6 +184,9 @@ type nhConfig struct {
 	Gamma   float64 `json:"gamma,omitempty"`
 	Inspect bool    `json:"inspect,omitempty"`
 	Agents  bool    `json:"agents,omitempty"` // register a mock agent on dtn://node/app
+	// LiveCron leaves the registered cron jobs in place: they fire when the virtual clock is advanced tick by tick
+	// (the wiring scenario); otherwise the harness takes them out and runs them as explicit events.
+	LiveCron bool `json:"live_cron,omitempty"`
 }
 
 type nhNode struct {
@@ -244,7 +247,9 @@ func (n *nhNode) open() error {
 		return err
 	}
 	n.core = c
-	n.cron = c.VerifTakeCron()
+	if !n.cfg.LiveCron {
+		n.cron = c.VerifTakeCron()
+	}
 	n.closed = false
 	if n.cfg.Agents {
 		n.agent = newNhAgent("dtn://node/app", "dtn://monitoring/reports") // the second endpoint is local under another node name
